@@ -65,3 +65,16 @@ ASSUMPTIONS = ["the state vector is modelled as the identity sequence; getMotion
 TRUSTED = ["extraction rewrite tables of units/C17.py", "stubs in units/C17/pathgeom.c", "CBMC 6.11 DFCC + cadical/minisat"]
 NOT_COVERED = ["PathSimplifier: reduceVertices, collapseCloseVertices, ropeShortcutPath, partialShortcutPath, B-spline smoothing, perturbation, findBetterGoal, simplify; PathHybridization; every 'never longer / never worse' cost clause (exact-arithmetic)",
                "SpaceInformation::getMotionStates, PathGeometric::interpolate() (no-argument form), 'length unchanged' by densification"]
+
+MISC_CPPS = ['src/ompl/geometric/src/PathGeometric.cpp']
+NATIVE = [
+    dict(name="c17_native_search", driver="native/misc_native.cpp", link_ompl=True, unit_cpps=MISC_CPPS, args=lambda tier, seed: ["c17", seed, 2000 if tier == "quick" else 200000], timeout=900),
+]
+
+
+def replay(ur, scratch, seed):
+    """Search the real classes for a failing input (native/misc_native.cpp, mode c17)."""
+    from vf import native as N, cbmc as C
+    exe = N.build_driver("native/misc_native.cpp", scratch, link_ompl=True, unit_cpps=MISC_CPPS)
+    r = C.run_cmd([exe, "c17", str(seed), "50000"], 600, env=N.run_env())
+    return dict(found=(r["rc"] == 1), driver="native/misc_native.cpp", args=["c17", seed, 50000], link_ompl=True, unit_cpps=MISC_CPPS, output=r["out"][-2500:])
